@@ -8,12 +8,17 @@ from ..spec import bip32 as SP
 from ..spec import base58 as B58
 from .common import *
 
-PRIVKEY = PKG + '.keys.PrivateKey'
-PUBKEY = PKG + '.keys.PublicKey'
 
 
-def _key_obj(k):
-    return T.obj(PRIVKEY, {'k': k, 'K': T.obj(PUBKEY, {'K': T.pt(k)})})
+_P = [None]
+
+
+def _key_obj(k, be='ecdsa'):
+    return mk_priv(_P[0], be, k)
+
+
+def _pub_obj(P, be='ecdsa'):
+    return mk_pub(_P[0], be, P)
 
 
 def run(ctx):
@@ -27,6 +32,7 @@ def run(ctx):
         'tweak_add) must leave VALID_SK(scalar) as a must-fact in both back ends; PublicKey.sec/parse back ends agree.')
     ctx.not_decided = ['k*G, square roots and acceptance of raw/hybrid encodings inside ecdsa/libsecp256k1',
                        'Base58 digit arithmetic (C10)']
+    _P[0] = p
     fw = p.get_function('keys.PrivateKey.wif')
     k = S('k', type='bytes', len=32)
     cells = {}
@@ -97,8 +103,8 @@ def run(ctx):
                 v, f = ev.call_function('keys.PrivateKey.from_wif', [T.clsref(PRIVKEY), s], facts=facts)
                 keyb = T.slice_(D, T.const(1), T.const(33))
                 for cs, leaf in normal_leaves(v):
-                    same_term(ob, leaf, _key_obj(keyb), 'from_wif(%scompressed) takes bytes 1..32 of the payload as the scalar'
-                              % ('' if comp else 'un'), ffw.where)
+                    same_priv(ob, ev, leaf, keyb, 'from_wif(%scompressed) takes bytes 1..32 of the payload as the scalar'
+                              % ('' if comp else 'un'), ffw.where, facts=Facts(known_at(f, cs)))
                 ob.require(T.raw_op('VALID_SK', keyb) in closure(f) or not normal_leaves(v),
                            'from_wif builds the key through the validating constructor', ffw.where)
             # the decoder in front is the checksummed one
@@ -121,45 +127,47 @@ def run(ctx):
                     ('PrivateKey.from_int', lambda: ev.call_function('keys.PrivateKey.from_int', [T.clsref(PRIVKEY), n]), nb)):
                 v, f = call()
                 for cs, leaf in normal_leaves(v):
-                    same_term(ob, leaf, _key_obj(scalar), '%s stores the canonical 32-byte scalar and its point' % nm, finit.where)
+                    same_priv(ob, ev, leaf, scalar, '%s stores the canonical 32-byte scalar and its point' % nm, finit.where,
+                              facts=Facts(known_at(f, cs)))
                     ob.require(T.raw_op('VALID_SK', scalar) in known_at(f, cs),
                                '%s can complete without the scalar having been range-checked (0 < k < n, 32 bytes)' % nm,
                                finit.where, expected='VALID_SK fact from ec_seckey_verify / SigningKey.from_string(curve=SECP256k1)')
             # a byte string of another length: the bytes are handed to the validating call unchanged
             odd = S('odd', type='bytes')
             v, f = ev.construct('keys.PrivateKey', [odd])
-            ob.require(T.raw_op('VALID_SK', odd) in closure(f), 'PrivateKey(bytes of any length) reaches the validating call unchanged',
-                       finit.where)
+            for cs, leaf in normal_leaves(v):
+                ob.require(T.raw_op('VALID_SK', odd) in known_at(f, cs), 'PrivateKey(bytes of any length) reaches the validating call unchanged',
+                           finit.where)
         if be == 'secp':
             ft = p.get_function('keys.PrivateKey.tweak_add')
             with ctx.obligation('C09.FUNNEL', 'PrivateKey.tweak_add', be, ft.where) as ob:
                 ev = Evaluator(p, be)
                 b, t = S('b', type='bytes', len=32), S('t', type='bytes', len=32)
-                v, f = ev.call_function('keys.PrivateKey.tweak_add', [_key_obj(b), t])
-                same_term(ob, v, _key_obj(T.sk_add(b, t)), 'tweak_add is (k + t) mod n built through the constructor', ft.where)
+                v, f = ev.call_function('keys.PrivateKey.tweak_add', [_key_obj(b, be), t])
+                same_priv(ob, ev, v, T.sk_add(b, t), 'tweak_add is (k + t) mod n built through the constructor', ft.where, facts=f)
                 ob.require(T.raw_op('VALID_SK', T.sk_add(b, t)) in closure(f), 'tweaked key is validated', ft.where)
             ft = p.get_function('keys.PublicKey.tweak_add')
             with ctx.obligation('C09.FUNNEL', 'PublicKey.tweak_add', be, ft.where) as ob:
                 ev = Evaluator(p, be)
                 P, t = S('P', type='point'), S('t', type='bytes', len=32)
-                v, f = ev.call_function('keys.PublicKey.tweak_add', [T.obj(PUBKEY, {'K': P}), t])
-                same_term(ob, v, T.obj(PUBKEY, {'K': T.pt_add(P, T.pt(t))}), 'public tweak_add is P + t*G', ft.where)
+                v, f = ev.call_function('keys.PublicKey.tweak_add', [_pub_obj(P, be), t])
+                same_pub(ob, ev, v, T.pt_add(P, T.pt(t)), 'public tweak_add is P + t*G', ft.where)
     # ---------------------------------------------------------------- SEC siblings / equality
     fsec = p.get_function('keys.PublicKey.sec')
     with ctx.obligation('C09.SEC', 'PublicKey.sec/parse/__eq__', None, fsec.where) as ob:
         for be in BACKENDS:
             ev = Evaluator(p, be)
             P, Q, c, enc = S('P', type='point'), S('Q', type='point'), S('compressed', type='bool'), S('enc', type='bytes')
-            v, _ = ev.call_function('keys.PublicKey.sec', [T.obj(PUBKEY, {'K': P})], {'compressed': c})
+            v, _ = ev.call_function('keys.PublicKey.sec', [_pub_obj(P, be)], {'compressed': c})
             same_term(ob, v, T.sec(P, c), 'sec(compressed) [%s]' % be, fsec.where)
             v, f = ev.call_function('keys.PublicKey.parse', [T.clsref(PUBKEY), enc])
-            same_term(ob, v, T.obj(PUBKEY, {'K': T.parse_pt(enc)}), 'parse [%s]' % be, fsec.where)
+            same_pub(ob, ev, v, T.parse_pt(enc), 'parse [%s]' % be, fsec.where)
             ob.require(T.raw_op('ON_CURVE', enc) in closure(f), 'parse validates that the encoding is a curve point [%s]' % be, fsec.where)
             for comp in (True, False):
                 v, f = ev.call_function('keys.PublicKey.parse', [T.clsref(PUBKEY), T.sec(P, T.const(comp))])
-                same_term(ob, v, T.obj(PUBKEY, {'K': P}), 'parse(sec(P, compressed=%s)) == P [%s]' % (comp, be), fsec.where)
-            v, _ = ev.call_function('keys.PublicKey.__eq__', [T.obj(PUBKEY, {'K': P}), T.obj(PUBKEY, {'K': Q})])
+                same_pub(ob, ev, v, P, 'parse(sec(P, compressed=%s)) == P [%s]' % (comp, be), fsec.where)
+            v, _ = ev.call_function('keys.PublicKey.__eq__', [_pub_obj(P, be), _pub_obj(Q, be)])
             same_term(ob, v, T.eq(T.sec(P, T.TRUE), T.sec(Q, T.TRUE)), 'public keys are equal iff their encodings are [%s]' % be, fsec.where)
             k1, k2 = S('k1', type='bytes', len=32), S('k2', type='bytes', len=32)
-            v, _ = ev.call_function('keys.PrivateKey.__eq__', [_key_obj(k1), _key_obj(k2)])
+            v, _ = ev.call_function('keys.PrivateKey.__eq__', [_key_obj(k1, be), _key_obj(k2, be)])
             same_term(ob, v, T.eq(k1, k2), 'private keys are equal iff their scalars are [%s]' % be, fsec.where)
